@@ -137,9 +137,11 @@ class _InlineFunction(XPathFunction):
 
         context = copy(context)
         if context is not None:
-            context.variables = context.variables.copy()
-            if self.variables:
-                context.variables.update(self.variables)
+            if self.variables is not None:
+                # The function body sees the variables of its closure (lexical scoping)
+                context.variables = self.variables.copy()
+            else:
+                context.variables = context.variables.copy()
 
         if self.varnames is None:
             self.varnames = []
@@ -171,9 +173,6 @@ class _InlineFunction(XPathFunction):
                 args = cast(tuple[ta.FunctionArgType], (context.item,))
 
             partial_function = False
-            if self.variables is None:
-                self.variables = {}
-
             for varname, sequence_type, value in zip(self.varnames, self.sequence_types, args):
                 if isinstance(value, XPathToken) and value.symbol == '?':
                     partial_function = True
